@@ -136,14 +136,17 @@ impl ISocketConnection for ZmtpSmartConnection {
         Err((returned, ZmqError::ResourceLimitReached))
       }
       Err(fibre::TrySendError::Full(returned)) => {
+        // `send()` consumes the batch even when it does not complete; keep a (ref-counted)
+        // copy so that the refused message can be handed back to the caller.
+        let refused = returned.clone();
         let timeout_duration = self.sndtimeo.unwrap_or(Duration::from_secs(30));
         match tokio::time::timeout(timeout_duration, self.egress_tx.send(returned)).await {
           Ok(Ok(())) => {
             self.signal_worker();
             Ok(())
           }
-          Ok(Err(_)) => Err((FrameBatch::new(), ZmqError::ConnectionClosed)),
-          Err(_) => Err((FrameBatch::new(), ZmqError::Timeout)),
+          Ok(Err(_)) => Err((refused, ZmqError::ConnectionClosed)),
+          Err(_) => Err((refused, ZmqError::Timeout)),
         }
       }
       _ => unreachable!(),
